@@ -659,6 +659,99 @@ def check_sessions(ctx, model, H, cov):
                                        "case": case, "script": script.decode("latin-1")[:2000], "shell": name, "stdout": hexs(o)[:400], "sent": hexs(sent)[:400]})
 
 
+def check_highlevel_sessions(ctx, model, cov):
+    """The exporter switched on under a TupimageTerminal (tupiterm.term.shellscript_out = ...): upload_and_display /
+    display_only with every final cursor position, with and without line feeds, at absolute positions, with 0 or 1 tmux
+    layers.  Whatever reaches the two output streams (recorded in order on one stream) is what `sh script` prints."""
+    rng = ctx.rng
+    work = ctx.work
+    sessions = []
+    for _ in range(ctx.pick(40, 400)):
+        ops = []
+        for _ in range(rng.randrange(1, 4)):
+            ops.append({"call": rng.choice(["upload_and_display", "display_only"]), "cols": rng.choice([1, 2, 5]), "rows": rng.choice([1, 2, 3]),
+                        "ulf": rng.random() < 0.5, "final": rng.choice([None, "top-left", "top-right", "bottom-left", "bottom-right"]),
+                        "abs": rng.choice([None, None, [3, 2]]), "img": rng.randrange(2)})
+        sessions.append({"layers": rng.choice([0, 0, 1]), "ops": ops})
+
+    def child():
+        common.scrub_process_env()
+        os.environ["HOME"] = work
+        os.environ["XDG_STATE_HOME"] = os.path.join(work, "state")
+        os.environ["XDG_CONFIG_HOME"] = os.path.join(work, "config")
+        bindir = os.path.join(work, "bin-c18")
+        os.makedirs(bindir, exist_ok=True)
+        with open(os.path.join(bindir, "tmux"), "w") as f:
+            f.write("#!/bin/sh\necho 'fake-term||||77||||88_sess'\n")
+        os.chmod(os.path.join(bindir, "tmux"), 0o755)
+        os.environ["PATH"] = bindir + ":" + os.environ.get("PATH", "")
+        import tupimage
+        from PIL import Image
+        imgs = []
+        for i in range(2):
+            p = os.path.join(work, f"c18-hl-{i}.png")
+            Image.new("RGB", (6 + i, 5), (40 * i, 9, 9)).save(p)
+            imgs.append(p)
+        tty_in = open("/dev/tty", "rb", buffering=0)
+        out = []
+        for si, sess in enumerate(sessions):
+            rec = common.RecStream()
+            db = os.path.join(work, f"c18-hl-{os.getpid()}-{si}.db")
+            t = tupimage.TupimageTerminal(out_command=rec, out_display=rec, in_response=tty_in, id_database=db, config="DEFAULT", upload_method="direct",
+                                          num_tmux_layers=sess["layers"], redetect_terminal=False, id_space="8bit")
+            script = io.StringIO()
+            t.term.shellscript_out = script
+            errors = []
+            for op in sess["ops"]:
+                kw = {}
+                if op["final"]:
+                    kw["final_cursor_pos"] = op["final"]
+                if op["abs"] is not None:
+                    kw["abs_pos"] = tuple(op["abs"])
+                elif op["ulf"]:
+                    kw["use_line_feeds"] = True
+                try:
+                    if op["call"] == "upload_and_display":
+                        t.upload_and_display(imgs[op["img"]], cols=op["cols"], rows=op["rows"], **kw)
+                    else:
+                        t.display_only(17 + op["img"], start_col=0, start_row=0, end_col=op["cols"], end_row=op["rows"], **kw)
+                except Exception as e:  # noqa
+                    errors.append(f"{op['call']}: {type(e).__name__}: {e}"[:160])
+            out.append({"script": script.getvalue().encode("utf-8").hex(), "sent": b"".join(bytes(w) for w in rec.writes).hex(), "errors": errors})
+            t.id_manager.close()
+            os.remove(db)
+        return out
+
+    r = common.in_pty(child, timeout=600)
+    if "ok" not in r:
+        ctx.corr_breaks.append({"what": "TupimageTerminal sessions with the exporter failed in the pty sandbox", "error": {k: v for k, v in r.items() if k != "tty"}})
+        return
+    reps = model.batch([f"c18.spec_eval {res['script']}" for res in r["ok"]])
+    items = []
+    for sess, res, rep in zip(sessions, r["ok"], reps):
+        script, sent = bytes.fromhex(res["script"]), bytes.fromhex(res["sent"])
+        spec_out = unhex(rep)
+        case = {"kind": "highlevel-session", "session": sess}
+        cov.add(case, nontrivial=len(sent) > 0, klass=f"highlevel-session/layers={sess['layers']}")
+        for e in res["errors"]:
+            cov.bump("highlevel-session/op-raised/" + e.split(":")[1].strip())
+        if spec_out != sent:
+            ctx.violations.append({"signature": {"class": "session-" + classify_session(script, spec_out), "path": "TupimageTerminal"},
+                                   "what": "TupimageTerminal with the exporter switched on: POSIX sh running the recorded script does not print what was written to the terminal "
+                                           f"({len(sent)} bytes sent, the script prints {None if spec_out is None else len(spec_out)})",
+                                   "case": case, "script": script.decode("latin-1")[:2000], "sent": hexs(sent)[:400]})
+            break
+        items.append((case, script, sent))
+    sample = items[: ctx.pick(15, 100)]
+    for name, outs in run_in_shells(ctx, [s_ for _, s_, _ in sample], "hlsess").items():
+        for (case, script, sent), (o, e) in zip(sample, outs):
+            if o is not None and o != sent:
+                ctx.violations.append({"signature": {"class": "session-script-output-differs", "path": "TupimageTerminal"},
+                                       "what": f"{name} running the script recorded under a TupimageTerminal does not print what was written to the terminal", "case": case,
+                                       "script": script.decode("latin-1")[:2000], "shell": name})
+                break
+
+
 def classify_session(script, spec_out):
     if any(f.startswith(b"-") for f in formats_in(script)):
         return "printf-format-starts-with-dash"
@@ -679,6 +772,7 @@ def run(ctx, model):
     check_spec_vs_shells(ctx, model, cov)
     check_scripts(ctx, model, H, cov)
     check_sessions(ctx, model, H, cov)
+    check_highlevel_sessions(ctx, model, cov)
     # of several violations of one class report one that a real shell confirmed, the shortest first
     ctx.violations.sort(key=lambda v: (0 if "shell" in v else 1, len(v.get("script", ""))))
     return cov
@@ -711,4 +805,10 @@ def replay(ctx, model, rec):
         outs = {name: rr[0][0] for name, rr in sh.items()}
         return {"violates": (model is not None and spec_out != sent) or any(o != sent for o in outs.values()),
                 "script": script.decode("latin-1")[:3000], "sent": repr(sent[:300]), "shell_stdout": {k: repr(v[:300]) if v is not None else None for k, v in outs.items()}}
+    if case.get("kind") == "highlevel-session":
+        n0 = len(ctx.violations)
+        check_highlevel_sessions(ctx, model, common.Coverage("replay"))
+        mine = ctx.violations[n0:]
+        del ctx.violations[n0:]
+        return {"violates": bool(mine), "violations": [v["what"] for v in mine][:3], "note": "the generated sessions of this seed are re-run"}
     return {"violates": False, "note": "unknown case kind"}
